@@ -32,7 +32,7 @@ import extract_rwlock
 DICTS = {'_documents': 'docs', 'indexes': 'indexes', '_ttl_indexes': 'ttl'}
 METHODS = collections.OrderedDict([
     ('__contains__', 'contains'), ('__getitem__', 'getItem'), ('__setitem__', 'setItem'),
-    ('__delitem__', 'delItem'), ('__len__', 'len'), ('documents', 'documents'),
+    ('__delitem__', 'delItem'), ('discard', 'discard'), ('__len__', 'len'), ('documents', 'documents'),
     ('is_empty', 'isEmpty'), ('_expire_documents', 'expireDocuments'),
     ('_remove_expired_documents', 'removeExpired'), ('create_index', 'createIndex'),
     ('create_index_ttl', 'createIndexTtl'), ('drop_index', 'dropIndex')])
@@ -161,7 +161,7 @@ def _traced_class(log):
         return f
 
     ns = {}
-    for name in ('__contains__', '__getitem__', '__setitem__', '__delitem__', '__len__',
+    for name in ('__contains__', '__getitem__', '__setitem__', '__delitem__', 'discard', '__len__',
                  '_expire_documents', '_remove_expired_documents', 'create_index', 'drop_index'):
         if hasattr(base, name):
             ns[name] = wrap(name)
@@ -225,6 +225,10 @@ def run_method(pyname):
         return log, KEY + 1
     elif pyname == '__delitem__':
         del st[KEY]
+    elif pyname == 'discard':
+        # what Collection._delete removes a document with; whatever it returns is not an event
+        # of the discipline (the correspondence compares it: sched.py `discard`)
+        st.discard(KEY)
     elif pyname == '__len__':
         len(st)
     elif pyname == 'is_empty':
